@@ -443,6 +443,10 @@ func (r *rewriter) selectStmt(n *ast.SelectStmt, label *ast.Ident) ast.Stmt {
 	hd := "false"
 	if hasDefault {
 		hd = "true"
+	} else {
+		// a select without default always takes a case; the default clause keeps the rewritten
+		// switch a terminating statement where the select was one
+		clauses = append(clauses, &ast.CaseClause{List: nil, Body: []ast.Stmt{&ast.ExprStmt{X: &ast.CallExpr{Fun: ast.NewIdent("panic"), Args: []ast.Expr{&ast.BasicLit{Kind: token.STRING, Value: `"vsched: select without default returned no case"`}}}}}})
 	}
 	args := append([]ast.Expr{ast.NewIdent(hd)}, caseArgs...)
 	sw := &ast.SwitchStmt{
